@@ -83,6 +83,7 @@ type GateResult struct {
 	Results   int             `json:"results"`
 	Early     []GateEarly     `json:"early"`
 	Stuck     []GateEarly     `json:"stuck"`
+	OptionLost []string       `json:"option_lost"`
 	Log       []string        `json:"log"`
 	TickMs    int             `json:"tick_ms"`
 	WallMs    int64           `json:"wall_ms"`
@@ -110,6 +111,8 @@ type gate struct {
 	accepted int
 	lastInfo string // last info string sent by the engine (ClearHash / ResizeCache say whether they were refused)
 	readyoks int
+	killerShown string // value of UseKiller in the last configuration print-out (uci front)
+	killerWant  bool
 }
 
 func (g *gate) note(f string, a ...interface{}) {
@@ -419,6 +422,14 @@ func (r *gateRun) call(kind string, out *bool) func() {
 	if r.uciW != nil {
 		line := map[string]string{"stop": "stop", "newgame": "ucinewgame", "ponderhit": "ponderhit", "clearhash": "setoption name Clear Hash",
 			"resize": "setoption name Hash value 8", "isready": "isready"}[kind]
+		if kind == "setopt" {
+			r.g.mu.Lock()
+			r.g.killerWant = !r.g.killerWant
+			v := r.g.killerWant
+			r.g.killerShown = ""
+			r.g.mu.Unlock()
+			return func() { r.uciSend(fmt.Sprintf("setoption name Use_Killer value %v", v), "setoption name Print Config") }
+		}
 		if line == "" { // issearching / wait have no command line
 			return func() {}
 		}
@@ -444,6 +455,8 @@ func (r *gateRun) call(kind string, out *bool) func() {
 		return func() { r.s.ClearHash() }
 	case "resize":
 		return func() { r.s.ResizeCache() }
+	case "setopt":
+		return func() {} // options are the protocol handler's business
 	default:
 		return func() { r.s.IsReady() }
 	}
@@ -633,6 +646,18 @@ func (r *gateRun) step(n int, st *GateStep) bool {
 			g.mu.Unlock()
 			switch x {
 			case "issearching":
+			case "setopt":
+				if r.uciW != nil {
+					// property monitor: an option set at a protocol-valid moment (no started search is unanswered) takes effect
+					g.mu.Lock()
+					shown, wantV, acc := g.killerShown, g.killerWant, g.accepted
+					g.mu.Unlock()
+					if int(atomic.LoadInt64(&g.results)) == acc && shown != fmt.Sprint(wantV) {
+						r.res.OptionLost = append(r.res.OptionLost, fmt.Sprintf("step %d: setoption name Use_Killer value %v, the configuration print-out shows %q (results %d = accepted starts %d)",
+							n, wantV, shown, acc, acc))
+					}
+				}
+				return true
 			case "clearhash", "resize":
 				v = strings.Contains(info, "while searching") // refused
 			case "isready":
@@ -757,6 +782,9 @@ func runGateBehaviour(b *GateBehaviour, watchdog time.Duration, tickMs int, uciF
 				case strings.HasPrefix(l, "info string"):
 					g.mu.Lock()
 					g.lastInfo = l
+					if f := strings.Fields(l); len(f) >= 2 && strings.Contains(l, "UseKiller ") {
+						g.killerShown = f[len(f)-1]
+					}
 					g.mu.Unlock()
 				}
 			}
